@@ -128,7 +128,8 @@ SPEC = {
         "check_unsound_nested", "check_unsound_offsets", "check_unsound_array",
         "check_sound_refuted", "reported_true_refuted",
         "get_matches_spec_partial", "get_matches_spec_flat", "check_decides_sizes_partial",
-        "reported_true_partial", "check_sound_partial", "vector_free_agree",
+        "reported_true_partial", "check_sound_partial", "agree_same_size_and_fields",
+        "vector_free_agree", "check_total", "get_le_spec",
     ]],
     "harness": "c19",
     "nontrivial": nontrivial,
